@@ -26,7 +26,7 @@ FAMILIES = ["gauss_cov_scalar", "gauss_cov_vec", "gauss_cov_full", "gauss_prec_f
             "uniform", "cauchy", "mhn", "gauss_sqrtprec_lower", "gauss_sqrtprec_full", "gauss_sqrtcov_upper",
             "gauss_sqrtcov_full", "gauss_prec_vec", "gauss_geom_cont1d", "gauss_geom_image2d", "normal_geom_cont1d",
             "gamma_geom_discrete", "gauss_scalar_mean_geom", "gauss_scalar_all", "normal_scalar_geom", "gamma_scalar_geom",
-            "laplace_scalar_geom", "uniform_scalar_geom", "gauss_sqrtprec_full_forder", "gauss_sqrtprec_sparse_bidiag", "gauss_mean_cuqiarray", "gmrf_mean_cuqiarray",
+            "laplace_scalar_geom", "uniform_scalar_geom", "gmrf_order0", "gmrf_order2", "gmrf2d_order0", "gmrf2d_order2", "gauss_sqrtprec_full_forder", "gauss_sqrtprec_sparse_bidiag", "gauss_mean_cuqiarray", "gmrf_mean_cuqiarray",
             "user_defined_gauss"]
 
 
@@ -35,7 +35,7 @@ def build_dist(rec):
     fam, n, z = rec["fam"], rec["n"], rec["zseed"]
     rs = np.random.RandomState(z)
     mean = rs.randn(n)
-    B = rs.randn(n, n) * 0.4
+    B = rs.randn(n, n) * 0.4 / max(1.0, n / 5.0) ** 0.5          # keeps the large-dimension factors well conditioned
     C = np.eye(n) + B @ B.T
     if fam == "gauss_cov_scalar":
         return D.Gaussian(mean, 0.7)
@@ -69,6 +69,12 @@ def build_dist(rec):
     if fam == "gamma_geom_discrete":
         import cuqi
         return D.Gamma(np.linspace(1.0, 3.0, n), 1.5, geometry=cuqi.geometry.Discrete(["v%d" % i for i in range(n)]))
+    if fam in ("gmrf_order0", "gmrf_order2"):
+        n3 = max(n, 4)
+        return D.GMRF(np.random.RandomState(z).randn(n3), 1.7, bc_type="zero", order=int(fam[-1]))
+    if fam in ("gmrf2d_order0", "gmrf2d_order2"):
+        import cuqi
+        return D.GMRF(np.zeros(16), 1.3, bc_type="zero", order=int(fam[-1]), geometry=cuqi.geometry.Image2D((4, 4)))
     if fam == "gauss_scalar_mean_geom":
         return D.Gaussian(0.5, np.linspace(0.5, 2.0, n), geometry=n)        # scalar mean broadcast over the geometry
     if fam == "gauss_scalar_all":
@@ -190,7 +196,7 @@ class LoggedRS(np.random.RandomState):
         return self._rec(super().standard_normal, size)
 
 
-GAUSS_MECH = ("gauss_", "gmrf_zero", "gmrf2d", "gmrf_mean_cuqiarray", "lognormal")
+GAUSS_MECH = ("gauss_", "gmrf_zero", "gmrf2d", "gmrf_order", "gmrf_mean_cuqiarray", "lognormal")
 
 
 def out_array(o):
@@ -316,6 +322,8 @@ class StreamsRun:
                 ctx.log("b_out", core.digest(out))
                 if rs_digest(g) != gd:
                     ctx.violate(PROP, "own_generator_touched_by_global_draw", self.sig(op=k, fam=self._fam(op)))
+            elif k == "gen_sample":
+                self._generator_client(op, dists)
             elif k == "cond_refuse":
                 self._cond_refuse(op, g)
             elif k in ("setparam", "make_conditional"):
@@ -459,6 +467,36 @@ class StreamsRun:
                 return
         ctx.hit("gaussian_mechanism_checked")
 
+    def _generator_client(self, op, dists):
+        """A third client owning a NEW-STYLE numpy Generator (np.random.default_rng): for the families whose sampling
+        calls exist on both generator types the draws must be a function of that generator's state, must advance it,
+        and must leave the global stream untouched."""
+        ctx = self.ctx
+        d = op["d"]
+        fam = self.sc["dists"][d]["fam"]
+        if not fam.startswith(("normal", "gamma", "laplace", "uniform")) or self.conditional.get(d) or self.touched.get(d):
+            return
+        dist = dists[d]
+        gen = np.random.default_rng(op["seed"])
+        st0 = gen.bit_generator.state
+        Gd = core.SimRandom.state_digest()
+        try:
+            a = out_array(dist.sample(op["N"], rng=gen))
+        except Exception:
+            ctx.undecided("family does not accept a new-style Generator")
+            return
+        ctx.fault("new_style_generator_client")
+        ctx.count("decisions")
+        sg = self.sig(fam=fam, generator="numpy.random.Generator")
+        if core.SimRandom.state_digest() != Gd:
+            ctx.violate(PROP, "global_stream_touched_by_rng_draw", sg, N=op["N"])
+        if gen.bit_generator.state == st0:
+            ctx.violate(PROP, "given_generator_not_used", sg)
+        gen2 = np.random.default_rng(op["seed"])
+        b = out_array(dist.sample(op["N"], rng=gen2))
+        if not np.array_equal(a, b, equal_nan=True):
+            ctx.violate(PROP, "not_a_function_of_generator_state", sg)
+
     def _fresh_twin_oracle(self, op, dist, g_state_before, out):
         """An object whose parameters were (re-)assigned must be indistinguishable from one constructed with them."""
         ctx = self.ctx
@@ -597,7 +635,9 @@ def gen_case(r, tier):
     nd = r.randint(1, 3)
     dists = [{"fam": r.choice(FAMILIES[:-1]), "n": r.randint(1, 5), "zseed": r.randrange(1, 10 ** 6)} for _ in range(nd)]
     for d in dists:
-        if d["fam"] in ("gauss_cov_scalar", "gauss_cov_vec", "gauss_sparse_cov", "gauss_sparse_prec", "normal") and r.random() < 0.25:
+        if d["fam"] in ("gauss_cov_scalar", "gauss_cov_vec", "gauss_sparse_cov", "gauss_sparse_prec", "normal", "gauss_cov_full",
+                        "gauss_prec_full", "gauss_sqrtcov", "gauss_sqrtprec", "gauss_sqrtprec_lower", "gauss_sqrtprec_full",
+                        "gauss_sqrtcov_full") and r.random() < 0.25:
             d["n"] = r.choice([76, 80, 90])        # across the dense/sparse storage switch (MIN_DIM_SPARSE = 75)
         if d["fam"].startswith("gauss_sparse"):
             d["n"] = max(d["n"], 2)          # a 1x1 sparse matrix is not an accepted Gaussian input (outside C05)
@@ -617,6 +657,8 @@ def gen_case(r, tier):
             ops.append({"op": "b_sample", "d": r.randrange(nd), "N": N})
         elif x < 0.90:
             ops.append({"op": "b_mcmc", "N": r.randint(1, 4)})
+        elif x < 0.935:
+            ops.append({"op": "gen_sample", "d": r.randrange(nd), "N": N, "seed": r.randrange(2 ** 31)})
         elif x < 0.96:
             ops.append({"op": "cond_refuse", "kind": r.choice(["gauss_cov", "gauss_mean", "gamma", "gmrf", "normal"]), "N": N})
         elif x < 0.985:
